@@ -9,7 +9,7 @@ use crate::obs::{guard, hex, Ctx};
 use crate::refimpl::{self as R, REntry};
 use crate::rng::{hash_bytes, hash_u64s, Rng};
 use futures::executor::block_on;
-use pmtiles2::{Directory, Header};
+use pmtiles2::{Directory, Header, PMTiles};
 use serde_json::json;
 
 /// the k-th composition of n (k in 0..2^(n-1)): bit i set = cut after byte i+1
@@ -318,6 +318,7 @@ pub fn run(ctx: &mut Ctx) {
             };
             let async_bytes = crate::checks::common::write_async(l.build_async()).unwrap_or_default();
             let base = snap_sync_plain(&bytes);
+            let base_rewrite: Result<Vec<u8>, String> = PMTiles::from_bytes(bytes.clone()).and_then(write_sync).map_err(|e| e.to_string());
             let has_leaves = R::header_unpack(&bytes).map(|h| h.leaf_length > 0).unwrap_or(false);
             let mut scheds: Vec<Sched> = [1usize, 2, 3, 7, 64, 4096].iter().map(|c| Sched::Fixed(*c)).collect();
             for _ in 0..4 {
@@ -351,6 +352,28 @@ pub fn run(ctx: &mut Ctx) {
                     },
                 }
                 ctx.add("short_transfers", rs.c.short_transfers);
+                // re-write of the archive opened through the fragmenting reader (tiles are fetched from it while writing): the
+                // output must equal the re-write of the same archive opened from memory
+                if bytes.len() < (4 << 20) {
+                    let mut src = Inst::new(bytes.clone());
+                    src.c.rsched = s.clone();
+                    let r = guard(|| -> std::io::Result<Vec<u8>> {
+                        let pm = PMTiles::from_reader(&mut src)?;
+                        write_sync(pm)
+                    });
+                    match (&base_rewrite, r) {
+                        (_, Err(p)) => ctx.panic("PMTiles::to_writer", &p, mat.clone()),
+                        (Ok(want), Ok(Ok(got))) if *want == got => ctx.count("rewrites_through_fragmented_reader_equal"),
+                        (Ok(want), Ok(got)) => ctx.violation(
+                            "PMTiles::to_writer",
+                            "fragmented-read-differs",
+                            "re-writing an opened archive depends on how its reader fragments reads",
+                            &format!("schedule {desc}: {} bytes vs {} ({:?})", got.as_ref().map_or(0, Vec::len), want.len(), got.as_ref().err().map(|e| e.to_string())),
+                            mat.clone(),
+                        ),
+                        (Err(_), _) => {}
+                    }
+                }
                 // read, async
                 let mut ra = AInst::new(bytes.clone());
                 ra.c.rsched = s.clone();
